@@ -4,7 +4,7 @@
 From Coq Require Import List ZArith Bool.
 From WebpGen Require Tables Consts.
 From Webp Require Import Vp8.Vp8Bool Vp8.Vp8Tables Vp8.Vp8Syntax Vp8.Vp8Kernels Vp8.Vp8KernelProofs Vp8.Vp8Upsample
-  Vp8.Vp8BoolAbs Vp8.Vp8BoolEnc Vp8.Vp8SyntaxRT Vp8.Vp8TokenRT.
+  Vp8.Vp8BoolAbs Vp8.Vp8BoolEnc Vp8.Vp8SyntaxRT Vp8.Vp8TokenRT Vp8.Vp8ModeRT.
 Import ListNotations.
 Open Scope Z_scope.
 
@@ -85,6 +85,39 @@ Theorem C04_decode_block_roundtrip : forall tp first ctx dqdc dqac ls d rest,
                (dequant_block (acc_of first ls []) dqdc dqac, first + Z.of_nat (length ls), d') /\ sync d' rest.
 Proof. exact decode_block_rt. Qed.
 Print Assumptions C04_decode_block_roundtrip.
+
+(** Per-macroblock header (19.3, 11.2, 11.3): segment id, skip flag, luma mode, the 16 sub-block
+    modes with their above / left contexts, chroma mode; the contexts handed to the next
+    macroblocks are the last row / column of sub-block modes, or the mode a 16x16 mode stands for. *)
+Theorem C04_mb_header_roundtrip : forall h above_b left_b mh d rest, wf_mb_hdr h above_b left_b mh ->
+  sync d (e_mb_hdr h above_b left_b mh ++ rest) ->
+  exists d' ab ls, parse_mb_hdr h above_b left_b d = (mh, ab, ls, d') /\ sync d' rest /\
+    length ab = 4%nat /\ length ls = 4%nat /\
+    (mh_is4 mh = true -> ab = last (mh_bmodes mh) above_b) /\
+    (mh_is4 mh = false -> ab = rep4 (bmode_of_ymode (mh_ymode mh)) /\ ls = rep4 (bmode_of_ymode (mh_ymode mh))).
+Proof. exact parse_mb_hdr_rt. Qed.
+Print Assumptions C04_mb_header_roundtrip.
+
+(** Residual data of a macroblock: Y2 block (16x16 modes), 16 luma, 4 + 4 chroma blocks with the
+    "has coefficients" contexts of the left and above blocks, block types 0..3, first coefficient
+    1 after Y2: the parser returns the dequantised blocks of the emitted levels and the
+    "any coefficient" flag. *)
+Theorem C04_residuals_roundtrip : forall probs q (is4 : bool) above left y2 ys us vs d rest,
+  length (nz_y above) = 4%nat -> length (nz_y left) = 4%nat ->
+  length (nz_u above) = 2%nat -> length (nz_u left) = 2%nat ->
+  length (nz_v above) = 2%nat -> length (nz_v left) = 2%nat ->
+  wf_levels 0 false y2 -> wf_rows (if is4 then 0 else 1) 4 ys -> wf_rows 0 2 us -> wf_rows 0 2 vs ->
+  sync d (e_residuals probs is4 above left y2 ys us vs ++ rest) ->
+  exists d' na nl, parse_residuals probs q is4 above left d =
+    (mkRes (if is4 then None else Some (deq 0 (dq_y2dc q) (dq_y2ac q) y2))
+           (map (deq (if is4 then 0 else 1) (dq_y1dc q) (dq_y1ac q)) (concat ys))
+           (map (deq 0 (dq_uvdc q) (dq_uvac q)) (concat us))
+           (map (deq 0 (dq_uvdc q) (dq_uvac q)) (concat vs))
+           ((if is4 then false else bany y2) || existsb bany (concat ys) || existsb bany (concat us) || existsb bany (concat vs)),
+     na, nl, d') /\ sync d' rest /\
+    nz_y2 na = (if is4 then nz_y2 above else bflag y2) /\ nz_y2 nl = (if is4 then nz_y2 left else bflag y2).
+Proof. exact parse_residuals_rt. Qed.
+Print Assumptions C04_residuals_roundtrip.
 
 (** ** Kernel refinements: the Go decoder's short-cuts against the full definitions *)
 
